@@ -105,8 +105,8 @@ def _scripted_trace(sid):
     reqs = []
     for m, accs in shape.items():
         for a, acc in accs.items():
-            if acc['kind'] != 'param' or acc['lim']['kind'] == 'none':
-                continue
+            if acc['kind'] != 'param' or acc['lim']['kind'] == 'none' or acc['dt'].get('big'):
+                continue          # (the symbolic big integers have a request catalogue of their own)
             tgt = acc['wire']
             hi = acc['dt']['hi']
 
